@@ -1,1 +1,75 @@
-//! Deterministic task scheduler (C18).
+//! Deterministic task scheduler (C18): tasks are boxed futures, a scheduling point is any poll
+//! that returns `Pending`; at each point the chooser picks the task to run next. Continuing the
+//! running task is the default (cost 0); switching away from a still-unfinished task is a
+//! preemption (a deviation, cost 1). When the running task has finished, picking the next one is
+//! free.
+
+use crate::explore::Chooser;
+use std::future::Future;
+use std::pin::Pin;
+use std::task::{Context, Poll, Waker};
+
+pub type Task<'a> = Pin<Box<dyn Future<Output = ()> + 'a>>;
+
+#[derive(Debug, Default, Clone)]
+pub struct SchedReport {
+    /// task ids in the order they were polled
+    pub schedule: Vec<usize>,
+    pub preemptions: u32,
+    /// no task finished within the step budget: deadlock or livelock
+    pub stuck: bool,
+}
+
+pub fn run(mut tasks: Vec<Task<'_>>, ch: &Chooser, step_budget: usize, yield_points: &dyn Fn() -> u64) -> SchedReport {
+    let mut done = vec![false; tasks.len()];
+    // a task whose last poll was Pending without passing a yield point is waiting for a lock
+    let mut blocked = vec![false; tasks.len()];
+    let mut rep = SchedReport::default();
+    let mut cx = Context::from_waker(Waker::noop());
+    let mut current: Option<usize> = None;
+    for _ in 0..step_budget {
+        let alive: Vec<usize> = (0..tasks.len()).filter(|i| !done[*i]).collect();
+        if alive.is_empty() {
+            return rep;
+        }
+        let runnable: Vec<usize> = alive.iter().copied().filter(|i| !blocked[*i]).collect();
+        if runnable.is_empty() {
+            rep.stuck = true; // every unfinished task waits for a lock: deadlock
+            return rep;
+        }
+        // canonical order: the running task first (if still runnable), then ascending ids
+        let mut order: Vec<usize> = vec![];
+        let running = current.filter(|c| runnable.contains(c));
+        if let Some(c) = running {
+            order.push(c);
+        }
+        for a in &runnable {
+            if !order.contains(a) {
+                order.push(*a);
+            }
+        }
+        let k = if running.is_some() { ch.deviate(order.len()) } else { ch.pick(order.len()) };
+        let t = order[k];
+        if running.is_some() && k != 0 {
+            rep.preemptions += 1;
+        }
+        rep.schedule.push(t);
+        current = Some(t);
+        let before = yield_points();
+        match tasks[t].as_mut().poll(&mut cx) {
+            Poll::Ready(()) => {
+                done[t] = true;
+                blocked.iter_mut().for_each(|b| *b = false);
+            }
+            Poll::Pending => {
+                if yield_points() == before {
+                    blocked[t] = true;
+                } else {
+                    blocked.iter_mut().for_each(|b| *b = false);
+                }
+            }
+        }
+    }
+    rep.stuck = !done.iter().all(|d| *d);
+    rep
+}
